@@ -27,7 +27,9 @@ if [ -n "${FIRST_HARNESS:-}" ]; then
 echo "--- first attempt: checks of $FIRST_HARNESS against patched tree"
 for c in "$@"; do VERIF_REPO="$dir" "$FIRST_HARNESS/check" "$c" --tier "${TIER:-quick}" 2>&1 | filter; done
 fi
+if [ -z "${FIRST_ONLY:-}" ]; then
 echo "--- checks against patched tree"
 for c in "$@"; do VERIF_REPO="$dir" /verif/check "$c" --tier "${TIER:-quick}" 2>&1 | filter; done
+fi
 tag=$(python3 -c "import hashlib,sys;print(hashlib.sha1(sys.argv[1].encode()).hexdigest()[:8])" "$dir")
 rm -rf "$dir" "/verif/.build/props-$tag.test" "${FIRST_HARNESS:-/nonexistent}/.build/props-$tag.test"
